@@ -85,6 +85,92 @@ def phase_replay(c, ctx, run_, desc, nthreads):
     return len(lines), None
 
 
+def node_events(traces):
+    """events of the node-level reduction, per rank in program order (one worker thread per rank), for the extracted GvtNode model"""
+    lines = []
+    for rk, tr in enumerate(traces):
+        after_wait = False
+        for rec in tr:
+            k, w = rec["kind"], rec["w"]
+            if k == "GVT_PHASE" and w[3] == 1 and w[0] == 0:
+                lines.append("%d S" % rk)
+            elif k == "NODE":
+                if w[0] == 1:
+                    lines.append("%d F %d" % (rk, w[1]))
+                elif w[0] == 2:
+                    lines.append("%d C %d %d" % (rk, w[1], w[2] & 0xFFFFFFFF))
+                elif w[0] == 3:
+                    lines.append("%d K" % rk)
+                elif w[0] == 4:
+                    lines.append("%d N %d" % (rk, w[1]))
+                elif w[0] == 5:
+                    lines.append("%d W" % rk)
+                    after_wait = True
+                elif w[0] == 6:
+                    lines.append("%d G" % rk)     # the round is over on this rank (a computed value of 0.0 is not delivered as a GVT, so GVT records cannot be used)
+            elif k == "NET_SEND":
+                lines.append("%d X %d %d" % (rk, w[0], w[1]))
+            elif k == "NET_RECV":
+                lines.append("%d R %d" % (rk, w[0]))
+            elif k == "GVT_PHASE" and w[3] == 0 and w[0] == 3 and w[1] == 4 and after_wait:
+                lines.append("%d P" % rk)
+                after_wait = False
+    return lines
+
+
+def node_replay(c, ctx, r, n):
+    """2..3 ranks x 1 thread under the simulated network: the colour of every remote (anti-)message, every receipt, the contributions to the
+    reduce-scatter, its result and the end of the wait are replayed through the extracted step function of coq/TW/GvtNode.v"""
+    from concurrent.futures import ThreadPoolExecutor
+    jobs = []
+    for k in range(n):
+        p = progen.gen_program(r, lps=r.choice([2, 3, 4, 6]), target=r.choice([60, 120, 250]), zero_ts=(k % 3 == 0))
+        text = progen.render(p)
+        pf = os.path.join(ctx["sd"], "nd%d.txt" % k)
+        open(pf, "w").write(text)
+        ranks = min(p["lps"], r.choice([2, 2, 3]))
+        jobs.append((k, p, text, pf, ranks, r.choice([1, 3]), r.choice([0, 50, 200]),
+                     r.choice([None, "100,3000,3,%d", "0,5000,5,%d", "300,8000,10,%d"])))
+
+    def one(job):
+        k, p, text, pf, ranks, ck, gp, net = job
+        net = net % (c.seed * 17 + k) if net else None
+        tf = os.path.join(ctx["sd"], "ndtrace%d.txt" % k)
+        res = S.run_sim(ctx["exe"], pf, threads=1, ckpt=ck, gvt=gp, ranks=ranks, net=net, trace_file=tf,
+                        trace_mask=S.mask("GVT", "GVT_DRAIN", "GVT_PHASE", "NET_SEND", "NET_RECV", "NODE"), watchdog=25, timeout=60)
+        traces = []
+        for rk in range(ranks):
+            f = "%s.rank%d" % (tf, rk)
+            traces.append(S.read_trace(f))
+            if os.path.exists(f):
+                os.remove(f)
+        return job, net, res, traces
+    with ThreadPoolExecutor(3) as ex:
+        out = list(ex.map(one, jobs))
+    okn = steps = rounds = 0
+    bad = None
+    for (k, p, text, pf, ranks, ck, gp, _), net, res, traces in out:
+        desc = dict(threads=1, checkpoint_interval=ck, gvt_period_us=gp, ranks=ranks, network_delays=net, cmd=res.cmd)
+        if res.sanitizer:
+            C.sanitizer_violation(c, res, text, desc)
+            continue
+        if not res.returned:
+            continue
+        lines = node_events(traces)
+        rc, so, se = V.run([ctx["mexe"], "gvtnode", str(ranks)], inp="\n".join(lines) + "\n", timeout=120)
+        last = so.strip().split("\n")[-1] if so.strip() else ""
+        f = dict(x.split("=") for x in last.split()[1:]) if last else {}
+        steps += int(f.get("steps", 0)); rounds += int(f.get("rounds", 0))
+        if rc != 0 or not last.startswith("OK"):
+            if bad is None:
+                bad = dict(kind="correspondence", driver="node-level GVT reduction replay (coq/TW/GvtNode.v)", divergence=[l for l in so.split("\n") if l.startswith("DIVERGE")][:4],
+                           program=text, config=desc, stderr=se[-300:], events=lines[:80])
+        else:
+            okn += 1
+    c.cov.update(node_level_runs_replayed=okn, node_level_events_replayed=steps, node_level_rounds_replayed=rounds)
+    return bad
+
+
 def run(c, replay):
     r = V.Rng(c.seed)
     ctx = C.setup(c, "C04")
@@ -176,8 +262,11 @@ def run(c, replay):
         replayed += n
         if bad and corr_bad is None:
             corr_bad = bad
+    node_bad = node_replay(c, ctx, V.Rng(c.seed + 4040), 8 if c.tier == "quick" else 80)
     if corr_bad and not c.violations:
         c.violation("gvt-phase-correspondence", corr_bad, found_input=False)
+    if node_bad and not c.violations:
+        c.violation("gvt-node-correspondence", node_bad, found_input=False)
     if getattr(c, "_acc_bad", None) and not c.violations:
         c.violation("gvt-accumulator-correspondence", c._acc_bad, found_input=False)
     C.finish(c, ctx)
